@@ -148,6 +148,8 @@ func genPair(t *testing.T, c *vlib.Collector, r *vlib.Rand, id int) int {
 		}
 		cur := base
 		pairHistory(t, c, hr, &cur, 6)
+		cur = base + 50
+		pairEdsHistory(t, c, hr, &cur, 6)
 	}
 	return id
 }
